@@ -119,6 +119,23 @@ def r1_line_comment_discipline(w):
                     break
                 if lf == 'process_iterable_impl':
                     list_sites += 1
+                if not bad and lf != 'process_iterable_impl' and any(h.startswith('Linebreak item queued') for h in how):
+                    # the terminator is a queued item: no later child may un-queue it again (evaluated on <LineComment, Space+nl, X> for every X)
+                    kinds3 = [Node('child', k) for k in sorted(ch) if k not in ('Space',)] + [Node('child', 'Space', True), Node('child', 'Space', False)]
+                    res3 = evaluate_sequence(w, b, i, K, [LC, NL, kinds3], with_wholes=True)
+                    if res3 is None:
+                        bad = 'the three-step evaluation <LineComment, Space+nl, X> exceeded its bounds'
+                    else:
+                        for loop3, steps3, assumed3, items3 in res3:
+                            if loop3 != loop or len(steps3) < 3:
+                                continue
+                            uq = [e for e in steps3[2] if e[0] == 'unqueue' and isinstance(e[2], Agg) and e[2].variant == 'Linebreak']
+                            if uq:
+                                bad = 'queues a Linebreak item for the space, but a following %s child removes it again (%s): the comment is no longer terminated' % (
+                                    items3[2].kind if len(items3) > 2 else '?', uq[0][1])
+                                break
+                        else:
+                            how.add('no later child un-queues it (%d three-step paths)' % len(res3))
                 if bad:
                     r.bad(cons, '%s|%s|%s' % (last(b.short), K, lf),
                           '%s (%s node, loop in %s): after a line comment followed by a line-breaking space %s: the next token would be printed on the comment\'s line and '
